@@ -1,10 +1,12 @@
 ------------------------ MODULE ContainerConcProofs ------------------------
-(* Machine-checked (TLAPS) proof that mutual exclusion (C20) is an invariant of             *)
-(* ContainerConc for EVERY set of goroutines, services, parameters, dependency relation and *)
-(* operation scripts - the unbounded counterpart of what TLC checks on the instances of     *)
-(* MC_ContainerConc.  The inductive invariant says: a frame that is inside its critical     *)
-(* section (phases check .. unlock of an entry that needs a lock) belongs to the goroutine   *)
-(* the lock table names, and no goroutine has two such frames for one entry.                *)
+(* Machine-checked (TLAPS) proofs that mutual exclusion and "a shared service is            *)
+(* constructed at most once" (C20) are invariants of ContainerConc for EVERY set of         *)
+(* goroutines, services, parameters, dependency relation and operation scripts - the        *)
+(* unbounded counterpart of what TLC checks on the instances of MC_ContainerConc            *)
+(* (theorems MutexAlways and ConstructedOnceAlways at the end).  The first inductive        *)
+(* invariant says: a frame that is inside its critical section (phases check .. unlock of   *)
+(* an entry that needs a lock) belongs to the goroutine the lock table names, and no        *)
+(* goroutine has two such frames for one entry.                                             *)
 EXTENDS ContainerConc, SequenceTheorems, TLAPS
 
 Keys == Svc \cup Par
@@ -35,7 +37,8 @@ TypeOK ==
   /\ locks \in [Keys -> G \cup {Free}]
   /\ shared \in [Svc -> Nat]
   /\ pcache \in [Par -> BOOLEAN]
-  /\ nextInst \in Nat
+  /\ nextInst \in Nat \ {0}
+  /\ built \in [Svc -> Nat]
   /\ BagsOK
 
 LockInv == \A g \in G : \A i \in 1..Len(stack[g]) : Held(stack[g][i]) => locks[stack[g][i].id] = g
@@ -53,7 +56,7 @@ LEMMA InitInv == CInit => Inv
   <1> SUFFICES ASSUME CInit PROVE Inv
     OBVIOUS
   <1>1. TypeOK
-    <2>1. pcs \in [G -> Nat \ {0}] /\ locks \in [Keys -> G \cup {Free}] /\ shared \in [Svc -> Nat] /\ pcache \in [Par -> BOOLEAN] /\ nextInst \in Nat
+    <2>1. pcs \in [G -> Nat \ {0}] /\ locks \in [Keys -> G \cup {Free}] /\ shared \in [Svc -> Nat] /\ pcache \in [Par -> BOOLEAN] /\ nextInst \in Nat \ {0} /\ built \in [Svc -> Nat]
       BY DEF CInit, Keys, Free
     <2>2. stack \in [G -> Seq(FrameT)]
       <3>1. <<>> \in Seq(FrameT)
@@ -209,7 +212,7 @@ LEMMA BeginInv == ASSUME Inv, NEW g \in G, Begin(g) PROVE Inv'
     BY <1>1, <1>4, <1>5, PushProps
   <1>7. Len(stack[g]) \in Nat
     BY <1>1, LenProperties DEF TypeOK
-  <1>8. UNCHANGED <<pcs, locks, shared, bags, pcache, nextInst>>
+  <1>8. UNCHANGED <<pcs, locks, shared, bags, pcache, nextInst, built>>
     BY DEF Begin
   <1>9. TypeOK'
     BY <1>1, <1>6, <1>8 DEF TypeOK, BagsOK
@@ -227,7 +230,7 @@ LEMMA CheckInv == ASSUME Inv, NEW g \in G, Check(g) PROVE Inv'
   <1> DEFINE f2 == IF Cached(g) # 0 THEN [Top(g) EXCEPT !.phase = "unlock", !.inst = Cached(g)] ELSE [Top(g) EXCEPT !.phase = "deps"]
   <1>3. f2 \in FrameT /\ f2.kind = Top(g).kind /\ f2.id = Top(g).id /\ (Held(f2) <=> Held(Top(g)))
     BY <1>1, <1>2 DEF FrameT, Phases, Held, HeldPhases, NeedsLock
-  <1>4. stack' = SetTop(g, f2) /\ UNCHANGED <<pcs, locks, shared, bags, pcache, nextInst>>
+  <1>4. stack' = SetTop(g, f2) /\ UNCHANGED <<pcs, locks, shared, bags, pcache, nextInst, built>>
     BY DEF Check
   <1>5. stack' \in [G -> Seq(FrameT)] /\ LockInv' /\ NoDup'
     BY <1>1, <1>3, <1>4, RetopKeeps
@@ -238,14 +241,20 @@ LEMMA CheckInv == ASSUME Inv, NEW g \in G, Check(g) PROVE Inv'
 LEMMA ConstructInv == ASSUME Inv, NEW g \in G, Construct(g) PROVE Inv'
   <1>1. TypeOK /\ Busy(g) /\ Top(g).phase = "build"
     BY DEF Inv, Construct
-  <1>2. Top(g) \in FrameT /\ nextInst \in Nat
+  <1>2. Top(g) \in FrameT /\ nextInst \in Nat \ {0} /\ built \in [Svc -> Nat]
     BY <1>1, BusyLen DEF TypeOK
   <1> DEFINE f2 == IF Top(g).kind = "par" THEN [Top(g) EXCEPT !.phase = "store", !.inst = 1]
                                          ELSE [Top(g) EXCEPT !.phase = "store", !.inst = nextInst]
   <1>3. f2 \in FrameT /\ f2.kind = Top(g).kind /\ f2.id = Top(g).id /\ (Held(f2) <=> Held(Top(g)))
     BY <1>1, <1>2 DEF FrameT, Phases, Held, HeldPhases, NeedsLock
-  <1>4. stack' = SetTop(g, f2) /\ UNCHANGED <<pcs, locks, shared, bags, pcache>> /\ nextInst' \in Nat
-    BY <1>2 DEF Construct
+  <1>4. stack' = SetTop(g, f2) /\ UNCHANGED <<pcs, locks, shared, bags, pcache>> /\ nextInst' \in Nat \ {0} /\ built' \in [Svc -> Nat]
+    <2>1. CASE Top(g).kind = "par"
+      BY <1>2, <2>1 DEF Construct
+    <2>2. CASE Top(g).kind # "par"
+      <3>1. Top(g).id \in Svc
+        BY <1>2, <2>2 DEF FrameT
+      <3> QED BY <1>2, <2>2, <3>1 DEF Construct
+    <2> QED BY <2>1, <2>2
   <1>5. stack' \in [G -> Seq(FrameT)] /\ LockInv' /\ NoDup'
     BY <1>1, <1>3, <1>4, RetopKeeps
   <1>6. TypeOK'
@@ -261,7 +270,7 @@ LEMMA StoreInv == ASSUME Inv, NEW g \in G, Store(g) PROVE Inv'
              f2 == [f EXCEPT !.phase = "unlock"]
   <1>3. f2 \in FrameT /\ f2.kind = f.kind /\ f2.id = f.id /\ (Held(f2) <=> Held(f))
     BY <1>1, <1>2 DEF FrameT, Phases, Held, HeldPhases, NeedsLock
-  <1>4. stack' = SetTop(g, f2) /\ UNCHANGED <<pcs, locks, nextInst>>
+  <1>4. stack' = SetTop(g, f2) /\ UNCHANGED <<pcs, locks, nextInst, built>>
     BY DEF Store
   <1>5. stack' \in [G -> Seq(FrameT)] /\ LockInv' /\ NoDup'
     BY <1>1, <1>3, <1>4, RetopKeeps
@@ -303,7 +312,7 @@ LEMMA LockActInv == ASSUME Inv, NEW g \in G, Lock(g) PROVE Inv'
     BY <1>1, BusyLen
   <1>3. f2 \in FrameT /\ f2.id = f.id /\ (Held(f2) <=> NeedsLock(f)) /\ ~Held(f)
     BY <1>1, <1>2 DEF FrameT, Phases, Held, HeldPhases, NeedsLock
-  <1>4. stack' = SetTop(g, f2) /\ UNCHANGED <<pcs, shared, bags, pcache, nextInst>>
+  <1>4. stack' = SetTop(g, f2) /\ UNCHANGED <<pcs, shared, bags, pcache, nextInst, built>>
     BY DEF Lock
   <1>5. /\ stack' \in [G -> Seq(FrameT)]
         /\ \A h \in G : h # g => stack'[h] = stack[h]
@@ -372,6 +381,498 @@ LEMMA LockActInv == ASSUME Inv, NEW g \in G, Lock(g) PROVE Inv'
     <2> QED BY <2>3, <2>4 DEF Inv
   <1> QED BY <1>7, <1>8
 
+-----------------------------------------------------------------------------
+(* C20, second clause: a shared service is constructed at most once.                        *)
+(* built[s] counts constructions; the invariant ties it to where the one goroutine that may  *)
+(* be inside the critical section of s stands: before Construct (deps, build: "early")       *)
+(* nothing was built and nothing is cached; between Construct and Store ("store") one was     *)
+(* built and it is not cached yet; otherwise built[s] = 1 exactly when an instance is cached. *)
+IsSvcFrame(fr, s) == fr.kind = "svc" /\ fr.id = s
+Cls(fr, s) == IF IsSvcFrame(fr, s) /\ fr.phase \in {"deps", "build"} THEN "early"
+              ELSE IF IsSvcFrame(fr, s) /\ fr.phase = "store" THEN "store" ELSE "none"
+OnceFor(s) ==
+  /\ built[s] \in {0, 1}
+  /\ shared[s] # 0 => built[s] = 1
+  /\ \A g \in G : \A i \in 1..Len(stack[g]) :
+        /\ Cls(stack[g][i], s) = "early" => (built[s] = 0 /\ shared[s] = 0)
+        /\ Cls(stack[g][i], s) = "store" => (built[s] = 1 /\ shared[s] = 0 /\ stack[g][i].inst # 0)
+  /\ (built[s] = 1 /\ shared[s] = 0) => \E g \in G : \E i \in 1..Len(stack[g]) : Cls(stack[g][i], s) = "store"
+OnceInv == \A s \in Svc : ScopeOf[s] = "shared" => OnceFor(s)
+
+THEOREM OnceImplies == OnceInv => ConstructedOnce
+  BY DEF OnceInv, OnceFor, ConstructedOnce
+
+LEMMA InitOnce == CInit => OnceInv
+  BY DEF CInit, OnceInv, OnceFor
+
+(* two frames inside the critical section of one entry are the same frame *)
+LEMMA HeldUnique == ASSUME Inv, NEW g1 \in G, NEW g2 \in G, NEW i \in 1..Len(stack[g1]), NEW j \in 1..Len(stack[g2]),
+                           Held(stack[g1][i]), Held(stack[g2][j]), stack[g1][i].id = stack[g2][j].id
+                    PROVE  g1 = g2 /\ i = j
+  <1>1. locks[stack[g1][i].id] = g1 /\ locks[stack[g2][j].id] = g2
+    BY DEF Inv, LockInv
+  <1>2. g1 = g2
+    BY <1>1
+  <1> QED BY <1>2 DEF Inv, NoDup
+
+LEMMA SharedFrameHeld == ASSUME NEW s \in Svc, ScopeOf[s] = "shared", NEW fr, IsSvcFrame(fr, s), fr.phase \in HeldPhases
+                         PROVE  Held(fr)
+  BY DEF Held, NeedsLock, IsSvcFrame
+
+(* while a goroutine stands in the critical section of the shared service s with frame (g, n), no other frame of s is in   *)
+(* deps / build / store                                                                                                    *)
+LEMMA OnlyOneInside ==
+  ASSUME Inv, NEW s \in Svc, ScopeOf[s] = "shared", NEW g \in G, NEW n \in 1..Len(stack[g]),
+         IsSvcFrame(stack[g][n], s), stack[g][n].phase \in HeldPhases,
+         NEW h \in G, NEW i \in 1..Len(stack[h]), ~(h = g /\ i = n)
+  PROVE  Cls(stack[h][i], s) = "none"
+  <1> SUFFICES ASSUME Cls(stack[h][i], s) # "none" PROVE FALSE
+    OBVIOUS
+  <1>1. IsSvcFrame(stack[h][i], s) /\ stack[h][i].phase \in HeldPhases
+    BY DEF Cls, HeldPhases
+  <1>2. Held(stack[h][i]) /\ Held(stack[g][n]) /\ stack[h][i].id = stack[g][n].id
+    BY <1>1, SharedFrameHeld DEF IsSvcFrame
+  <1> QED BY <1>2, HeldUnique
+
+(* how one step changes the stacks: every frame but the acting goroutine's top is kept; the new stacks consist of kept frames, *)
+(* possibly a new top f2 at the same position, possibly one new frame in phase "lock" above it                                 *)
+Shape(g, f2) ==
+  /\ \A h \in G : \A i \in 1..Len(stack[h]) : ~(h = g /\ i = Len(stack[g])) => (i \in 1..Len(stack'[h]) /\ stack'[h][i] = stack[h][i])
+  /\ \A h \in G : \A i \in 1..Len(stack'[h]) :
+        \/ (i \in 1..Len(stack[h]) /\ ~(h = g /\ i = Len(stack[g])) /\ stack'[h][i] = stack[h][i])
+        \/ (h = g /\ i = Len(stack[g]) /\ stack'[h][i] = f2)
+        \/ (h = g /\ i = Len(stack[g]) + 1 /\ stack'[h][i].phase = "lock")
+
+LEMMA SetTopShape == ASSUME TypeOK, NEW g \in G, Busy(g), NEW f2 \in FrameT, stack' = SetTop(g, f2)
+                     PROVE  Shape(g, f2) /\ Len(stack[g]) \in 1..Len(stack'[g]) /\ stack'[g][Len(stack[g])] = f2
+  <1>1. /\ \A h \in G : h # g => stack'[h] = stack[h]
+        /\ Len(stack'[g]) = Len(stack[g])
+        /\ \A i \in 1..Len(stack[g]) : i # Len(stack[g]) => stack'[g][i] = stack[g][i]
+        /\ stack'[g][Len(stack[g])] = f2
+    BY SetTopProps
+  <1>2. Len(stack[g]) \in Nat \ {0}
+    BY BusyLen
+  <1> QED BY <1>1, <1>2 DEF Shape
+
+LEMMA PopShape == ASSUME TypeOK, NEW g \in G, Busy(g), stack' = Pop(g), NEW f2
+                  PROVE  Shape(g, f2) /\ Len(stack[g]) \notin 1..Len(stack'[g])
+  <1>1. /\ \A h \in G : h # g => stack'[h] = stack[h]
+        /\ Len(stack'[g]) = Len(stack[g]) - 1
+        /\ \A i \in 1..(Len(stack[g]) - 1) : stack'[g][i] = stack[g][i]
+    BY PopProps
+  <1>2. Len(stack[g]) \in Nat \ {0}
+    BY BusyLen
+  <1> QED BY <1>1, <1>2 DEF Shape
+
+(* pure logic: a step that keeps built[s] and shared[s], maps every early / store frame of s to one of the same class and      *)
+(* instance, and keeps a store frame of s if there was one                                                                      *)
+LEMMA NeutralFor ==
+  ASSUME NEW s \in Svc, OnceFor(s), built'[s] = built[s], shared'[s] = shared[s],
+         \A h \in G : \A i \in 1..Len(stack'[h]) : Cls(stack'[h][i], s) # "none" =>
+             \E k \in 1..Len(stack[h]) : Cls(stack[h][k], s) = Cls(stack'[h][i], s) /\ (Cls(stack'[h][i], s) = "store" => stack[h][k].inst = stack'[h][i].inst),
+         \A h \in G : \A i \in 1..Len(stack[h]) : Cls(stack[h][i], s) = "store" =>
+             \E k \in 1..Len(stack'[h]) : Cls(stack'[h][k], s) = "store"
+  PROVE  OnceFor(s)'
+  BY DEF OnceFor
+
+(* the top frame is replaced by one of the same class *)
+LEMMA RetopNeutral ==
+  ASSUME TypeOK, NEW s \in Svc, OnceFor(s), NEW g \in G, Busy(g), NEW f2, Shape(g, f2),
+         Len(stack[g]) \in 1..Len(stack'[g]), stack'[g][Len(stack[g])] = f2,
+         Cls(f2, s) = Cls(Top(g), s), f2.inst = Top(g).inst \/ Cls(f2, s) # "store",
+         built'[s] = built[s], shared'[s] = shared[s]
+  PROVE  OnceFor(s)'
+  <1> DEFINE n == Len(stack[g])
+  <1>1. n \in Nat \ {0} /\ Top(g) = stack[g][n]
+    BY BusyLen
+  <1>2. \A h \in G : \A i \in 1..Len(stack'[h]) : Cls(stack'[h][i], s) # "none" =>
+             \E k \in 1..Len(stack[h]) : Cls(stack[h][k], s) = Cls(stack'[h][i], s) /\ (Cls(stack'[h][i], s) = "store" => stack[h][k].inst = stack'[h][i].inst)
+    <2> SUFFICES ASSUME NEW h \in G, NEW i \in 1..Len(stack'[h]), Cls(stack'[h][i], s) # "none"
+                 PROVE  \E k \in 1..Len(stack[h]) : Cls(stack[h][k], s) = Cls(stack'[h][i], s) /\ (Cls(stack'[h][i], s) = "store" => stack[h][k].inst = stack'[h][i].inst)
+      OBVIOUS
+    <2>1. CASE i \in 1..Len(stack[h]) /\ ~(h = g /\ i = n) /\ stack'[h][i] = stack[h][i]
+      BY <2>1
+    <2>2. CASE h = g /\ i = n /\ stack'[h][i] = f2
+      <3>1. n \in 1..Len(stack[g]) /\ Cls(stack[g][n], s) = Cls(f2, s) /\ (Cls(f2, s) = "store" => stack[g][n].inst = f2.inst)
+        BY <1>1, <2>2
+      <3> QED BY <3>1, <2>2
+    <2>3. CASE h = g /\ i = n + 1 /\ stack'[h][i].phase = "lock"
+      BY <2>3 DEF Cls
+    <2> QED BY <2>1, <2>2, <2>3 DEF Shape
+  <1>3. \A h \in G : \A i \in 1..Len(stack[h]) : Cls(stack[h][i], s) = "store" => \E k \in 1..Len(stack'[h]) : Cls(stack'[h][k], s) = "store"
+    <2> SUFFICES ASSUME NEW h \in G, NEW i \in 1..Len(stack[h]), Cls(stack[h][i], s) = "store"
+                 PROVE  \E k \in 1..Len(stack'[h]) : Cls(stack'[h][k], s) = "store"
+      OBVIOUS
+    <2>1. CASE ~(h = g /\ i = n)
+      BY <2>1 DEF Shape
+    <2>2. CASE h = g /\ i = n
+      BY <2>2, <1>1
+    <2> QED BY <2>1, <2>2
+  <1> QED BY <1>2, <1>3, NeutralFor
+
+(* the top frame, of class none, is dropped - or there was no frame and one in phase "lock" is pushed *)
+LEMMA DropNeutral ==
+  ASSUME TypeOK, NEW s \in Svc, OnceFor(s), NEW g \in G, NEW f2, Shape(g, f2),
+         Len(stack[g]) \notin 1..Len(stack'[g]), Busy(g) => Cls(Top(g), s) = "none",
+         built'[s] = built[s], shared'[s] = shared[s]
+  PROVE  OnceFor(s)'
+  <1> DEFINE n == Len(stack[g])
+  <1>1. stack[g] \in Seq(FrameT) /\ n \in Nat
+    BY LenProperties DEF TypeOK
+  <1>2. n # 0 => (Busy(g) /\ Top(g) = stack[g][n])
+    BY <1>1, EmptySeq DEF Busy, Top
+  <1>3. \A h \in G : \A i \in 1..Len(stack'[h]) : Cls(stack'[h][i], s) # "none" =>
+             \E k \in 1..Len(stack[h]) : Cls(stack[h][k], s) = Cls(stack'[h][i], s) /\ (Cls(stack'[h][i], s) = "store" => stack[h][k].inst = stack'[h][i].inst)
+    <2> SUFFICES ASSUME NEW h \in G, NEW i \in 1..Len(stack'[h]), Cls(stack'[h][i], s) # "none"
+                 PROVE  \E k \in 1..Len(stack[h]) : Cls(stack[h][k], s) = Cls(stack'[h][i], s) /\ (Cls(stack'[h][i], s) = "store" => stack[h][k].inst = stack'[h][i].inst)
+      OBVIOUS
+    <2>1. CASE i \in 1..Len(stack[h]) /\ ~(h = g /\ i = n) /\ stack'[h][i] = stack[h][i]
+      BY <2>1
+    <2>2. CASE h = g /\ i = n /\ stack'[h][i] = f2
+      BY <2>2
+    <2>3. CASE h = g /\ i = n + 1 /\ stack'[h][i].phase = "lock"
+      BY <2>3 DEF Cls
+    <2> QED BY <2>1, <2>2, <2>3 DEF Shape
+  <1>4. \A h \in G : \A i \in 1..Len(stack[h]) : Cls(stack[h][i], s) = "store" => \E k \in 1..Len(stack'[h]) : Cls(stack'[h][k], s) = "store"
+    <2> SUFFICES ASSUME NEW h \in G, NEW i \in 1..Len(stack[h]), Cls(stack[h][i], s) = "store"
+                 PROVE  \E k \in 1..Len(stack'[h]) : Cls(stack'[h][k], s) = "store"
+      OBVIOUS
+    <2>1. CASE ~(h = g /\ i = n)
+      BY <2>1 DEF Shape
+    <2>2. CASE h = g /\ i = n
+      BY <2>2, <1>1, <1>2
+    <2> QED BY <2>1, <2>2
+  <1> QED BY <1>3, <1>4, NeutralFor
+
+LEMMA BeginOnce == ASSUME Inv, OnceInv, NEW g \in G, Begin(g) PROVE OnceInv'
+  <1>1. TypeOK
+    BY DEF Inv
+  <1> DEFINE o == CurOp(g)
+             k == IF o.op = "GetParam" THEN "par" ELSE "svc"
+             fr == Frame(k, o.id)
+  <1>2. stack' = Push(g, fr) /\ ~Busy(g) /\ built' = built /\ shared' = shared
+    BY DEF Begin
+  <1>3. pcs[g] \in 1..Len(Ops[g])
+    BY <1>1 DEF Begin, TypeOK
+  <1>4. fr \in FrameT /\ fr.phase = "lock"
+    <2>1. o.id \in Keys /\ (k = "svc" => o.id \in Svc) /\ (k = "par" => o.id \in Par)
+      BY <1>3, ConstAssump DEF CurOp
+    <2> QED BY <2>1, FrameTyped DEF Frame
+  <1>5. stack[g] = <<>> /\ Len(stack[g]) = 0
+    BY <1>2 DEF Busy
+  <1>6. /\ \A h \in G : h # g => stack'[h] = stack[h]
+        /\ Len(stack'[g]) = Len(stack[g]) + 1
+        /\ stack'[g][Len(stack[g]) + 1] = fr
+    BY <1>1, <1>2, <1>4, PushProps
+  <1>7. Shape(g, fr) /\ Len(stack[g]) \notin 1..Len(stack'[g])
+    BY <1>5, <1>6, <1>4 DEF Shape
+  <1> SUFFICES ASSUME NEW s \in Svc, ScopeOf[s] = "shared" PROVE OnceFor(s)'
+    BY DEF OnceInv
+  <1>8. OnceFor(s)
+    BY DEF OnceInv
+  <1> QED BY <1>1, <1>2, <1>7, <1>8, DropNeutral
+
+LEMMA LockOnce == ASSUME Inv, OnceInv, NEW g \in G, Lock(g) PROVE OnceInv'
+  <1>1. TypeOK /\ Busy(g) /\ Top(g).phase = "lock"
+    BY DEF Inv, Lock
+  <1> DEFINE f2 == [Top(g) EXCEPT !.phase = "check"]
+  <1>2. Top(g) \in FrameT
+    BY <1>1, BusyLen
+  <1>3. f2 \in FrameT /\ stack' = SetTop(g, f2) /\ built' = built /\ shared' = shared
+    BY <1>2 DEF Lock, FrameT, Phases
+  <1>4. Shape(g, f2) /\ Len(stack[g]) \in 1..Len(stack'[g]) /\ stack'[g][Len(stack[g])] = f2
+    BY <1>1, <1>3, SetTopShape
+  <1> SUFFICES ASSUME NEW s \in Svc, ScopeOf[s] = "shared" PROVE OnceFor(s)'
+    BY DEF OnceInv
+  <1>5. OnceFor(s) /\ Cls(f2, s) = "none" /\ Cls(Top(g), s) = "none"
+    BY <1>1, <1>2 DEF OnceInv, Cls, FrameT
+  <1> QED BY <1>1, <1>3, <1>4, <1>5, RetopNeutral
+
+LEMMA CheckOnce == ASSUME Inv, OnceInv, NEW g \in G, Check(g) PROVE OnceInv'
+  <1>1. TypeOK /\ Busy(g) /\ Top(g).phase = "check"
+    BY DEF Inv, Check
+  <1> DEFINE f == Top(g)
+             n == Len(stack[g])
+             f2 == IF Cached(g) # 0 THEN [f EXCEPT !.phase = "unlock", !.inst = Cached(g)] ELSE [f EXCEPT !.phase = "deps"]
+  <1>2. f \in FrameT /\ Cached(g) \in Nat /\ n \in Nat \ {0} /\ f = stack[g][n]
+    BY <1>1, BusyLen, CachedNat
+  <1>3. f2 \in FrameT /\ stack' = SetTop(g, f2) /\ built' = built /\ shared' = shared /\ f2.kind = f.kind /\ f2.id = f.id
+    BY <1>2 DEF Check, FrameT, Phases
+  <1>4. Shape(g, f2) /\ n \in 1..Len(stack'[g]) /\ stack'[g][n] = f2
+    BY <1>1, <1>3, SetTopShape
+  <1> SUFFICES ASSUME NEW s \in Svc, ScopeOf[s] = "shared" PROVE OnceFor(s)'
+    BY DEF OnceInv
+  <1>5. OnceFor(s) /\ Cls(f, s) = "none"
+    BY <1>1 DEF OnceInv, Cls
+  <1>6. CASE ~(IsSvcFrame(f, s) /\ Cached(g) = 0)
+    <2>1. Cls(f2, s) = "none"
+      <3>1. CASE Cached(g) # 0
+        <4>1. f2.phase = "unlock"
+          BY <3>1, <1>2 DEF FrameT
+        <4> QED BY <4>1 DEF Cls
+      <3>2. CASE Cached(g) = 0
+        <4>1. ~IsSvcFrame(f2, s)
+          BY <3>2, <1>6, <1>3 DEF IsSvcFrame
+        <4> QED BY <4>1 DEF Cls
+      <3> QED BY <3>1, <3>2
+    <2> QED BY <1>1, <1>3, <1>4, <1>5, <2>1, RetopNeutral
+  <1>7. CASE IsSvcFrame(f, s) /\ Cached(g) = 0
+    <2>1. shared[s] = 0 /\ f2.phase = "deps" /\ Cls(f2, s) = "early"
+      BY <1>7, <1>2, <1>3 DEF Cached, IsSvcFrame, Cls, FrameT
+    <2>2. \A h \in G : \A i \in 1..Len(stack[h]) : ~(h = g /\ i = n) => Cls(stack[h][i], s) = "none"
+      <3> SUFFICES ASSUME NEW h \in G, NEW i \in 1..Len(stack[h]), ~(h = g /\ i = n) PROVE Cls(stack[h][i], s) = "none"
+        OBVIOUS
+      <3>1. n \in 1..Len(stack[g]) /\ IsSvcFrame(stack[g][n], s) /\ stack[g][n].phase \in HeldPhases
+        BY <1>7, <1>2, <1>1 DEF HeldPhases
+      <3> QED BY <3>1, OnlyOneInside
+    <2>3. \A h \in G : \A i \in 1..Len(stack[h]) : Cls(stack[h][i], s) = "none"
+      BY <2>2, <1>5, <1>2
+    <2>4. built[s] = 0
+      BY <2>1, <2>3, <1>5 DEF OnceFor
+    <2>5. \A h \in G : \A i \in 1..Len(stack'[h]) : Cls(stack'[h][i], s) \in {"none", "early"}
+      <3> SUFFICES ASSUME NEW h \in G, NEW i \in 1..Len(stack'[h]) PROVE Cls(stack'[h][i], s) \in {"none", "early"}
+        OBVIOUS
+      <3>1. CASE i \in 1..Len(stack[h]) /\ ~(h = g /\ i = n) /\ stack'[h][i] = stack[h][i]
+        BY <3>1, <2>3
+      <3>2. CASE h = g /\ i = n /\ stack'[h][i] = f2
+        BY <3>2, <2>1
+      <3>3. CASE h = g /\ i = n + 1 /\ stack'[h][i].phase = "lock"
+        BY <3>3 DEF Cls
+      <3> QED BY <3>1, <3>2, <3>3, <1>4 DEF Shape
+    <2> QED BY <2>1, <2>4, <2>5, <1>3 DEF OnceFor
+  <1> QED BY <1>6, <1>7
+
+LEMMA DepOnce == ASSUME Inv, OnceInv, NEW g \in G, Dep(g) PROVE OnceInv'
+  <1>1. TypeOK /\ Busy(g) /\ Top(g).phase = "deps"
+    BY DEF Inv, Dep
+  <1> DEFINE f == Top(g)
+             n == Len(stack[g])
+             ds == DepsOf[f.id]
+  <1>2. f \in FrameT /\ n \in Nat \ {0} /\ f = stack[g][n]
+    BY <1>1, BusyLen
+  <1>3. built' = built /\ shared' = shared
+    BY DEF Dep
+  <1>4. \E f2 \in FrameT : /\ Shape(g, f2) /\ n \in 1..Len(stack'[g]) /\ stack'[g][n] = f2
+                           /\ f2.kind = f.kind /\ f2.id = f.id /\ f2.phase \in {"deps", "build"} /\ f2.inst = f.inst
+    <2>1. CASE f.dep > Len(ds)
+      <3> DEFINE f2 == [f EXCEPT !.phase = "build"]
+      <3>1. f2 \in FrameT /\ f2.kind = f.kind /\ f2.id = f.id /\ f2.phase \in {"deps", "build"} /\ f2.inst = f.inst
+        BY <1>2 DEF FrameT, Phases
+      <3>2. stack' = SetTop(g, f2)
+        BY <2>1 DEF Dep
+      <3> QED BY <1>1, <3>1, <3>2, SetTopShape
+    <2>2. CASE ~(f.dep > Len(ds))
+      <3> DEFINE f2 == [f EXCEPT !.dep = f.dep + 1]
+                 d == ds[f.dep]
+                 fr == Frame(d[1], d[2])
+                 mid == [stack[g] EXCEPT ![n] = f2]
+      <3>1. f.id \in Keys /\ f.dep \in Nat \ {0} /\ ds \in Seq({"svc", "par"} \X Keys)
+        BY <1>2, ConstAssump DEF FrameT
+      <3>2. f.dep \in 1..Len(ds)
+        BY <2>2, <3>1, LenProperties
+      <3>3. d \in {"svc", "par"} \X Keys /\ (d[1] = "svc" => d[2] \in Svc) /\ (d[1] = "par" => d[2] \in Par)
+        BY <3>1, <3>2, ConstAssump, ElementOfSeq
+      <3>4. fr \in FrameT /\ fr.phase = "lock"
+        BY <3>3, FrameTyped DEF Frame
+      <3>5. f2 \in FrameT /\ f2.kind = f.kind /\ f2.id = f.id /\ f2.phase \in {"deps", "build"} /\ f2.inst = f.inst
+        BY <1>1, <1>2 DEF FrameT
+      <3>6. stack' = [stack EXCEPT ![g] = Append(mid, fr)]
+        BY <2>2 DEF Dep
+      <3>7. stack[g] \in Seq(FrameT) /\ stack \in [G -> Seq(FrameT)]
+        BY <1>1 DEF TypeOK
+      <3>8. mid \in Seq(FrameT) /\ Len(mid) = n /\ \A i \in 1..n : mid[i] = IF i = n THEN f2 ELSE stack[g][i]
+        BY <3>7, <3>5, <1>2, ExceptSeq
+      <3>9. /\ Append(mid, fr) \in Seq(FrameT) /\ Len(Append(mid, fr)) = n + 1
+            /\ \A i \in 1..n : Append(mid, fr)[i] = mid[i]
+            /\ Append(mid, fr)[n + 1] = fr
+        BY <3>8, <3>4, AppendProperties
+      <3>10. /\ \A h \in G : h # g => stack'[h] = stack[h]
+             /\ Len(stack'[g]) = n + 1
+             /\ \A i \in 1..n : i # n => stack'[g][i] = stack[g][i]
+             /\ stack'[g][n] = f2 /\ stack'[g][n + 1] = fr
+        BY <3>6, <3>7, <3>8, <3>9, <1>2
+      <3>11. Shape(g, f2) /\ n \in 1..Len(stack'[g])
+        BY <3>10, <3>4, <1>2 DEF Shape
+      <3> QED BY <3>5, <3>10, <3>11
+    <2> QED BY <2>1, <2>2
+  <1> SUFFICES ASSUME NEW s \in Svc, ScopeOf[s] = "shared" PROVE OnceFor(s)'
+    BY DEF OnceInv
+  <1>5. OnceFor(s)
+    BY DEF OnceInv
+  <1>6. PICK f2 \in FrameT : /\ Shape(g, f2) /\ n \in 1..Len(stack'[g]) /\ stack'[g][n] = f2
+                            /\ f2.kind = f.kind /\ f2.id = f.id /\ f2.phase \in {"deps", "build"} /\ f2.inst = f.inst
+    BY <1>4
+  <1>7. Cls(f2, s) = Cls(f, s)
+    BY <1>6, <1>1 DEF Cls, IsSvcFrame
+  <1> QED BY <1>1, <1>3, <1>5, <1>6, <1>7, RetopNeutral
+
+LEMMA ConstructOnce == ASSUME Inv, OnceInv, NEW g \in G, Construct(g) PROVE OnceInv'
+  <1>1. TypeOK /\ Busy(g) /\ Top(g).phase = "build"
+    BY DEF Inv, Construct
+  <1> DEFINE f == Top(g)
+             n == Len(stack[g])
+             f2 == IF f.kind = "par" THEN [f EXCEPT !.phase = "store", !.inst = 1] ELSE [f EXCEPT !.phase = "store", !.inst = nextInst]
+  <1>2. f \in FrameT /\ n \in Nat \ {0} /\ f = stack[g][n] /\ nextInst \in Nat \ {0} /\ built \in [Svc -> Nat]
+    BY <1>1, BusyLen DEF TypeOK
+  <1>3. f2 \in FrameT /\ stack' = SetTop(g, f2) /\ shared' = shared /\ f2.kind = f.kind /\ f2.id = f.id /\ f2.phase = "store" /\ f2.inst # 0
+    BY <1>2 DEF Construct, FrameT, Phases
+  <1>4. Shape(g, f2) /\ n \in 1..Len(stack'[g]) /\ stack'[g][n] = f2
+    BY <1>1, <1>3, SetTopShape
+  <1> SUFFICES ASSUME NEW s \in Svc, ScopeOf[s] = "shared" PROVE OnceFor(s)'
+    BY DEF OnceInv
+  <1>5. OnceFor(s)
+    BY DEF OnceInv
+  <1>6. CASE ~IsSvcFrame(f, s)
+    <2>1. Cls(f2, s) = "none" /\ Cls(f, s) = "none"
+      BY <1>6, <1>3 DEF Cls, IsSvcFrame
+    <2>2. built'[s] = built[s]
+      <3>1. CASE f.kind = "par"
+        BY <3>1 DEF Construct
+      <3>2. CASE f.kind # "par"
+        <4>1. f.id \in Svc /\ f.id # s /\ built' = [built EXCEPT ![f.id] = @ + 1]
+          BY <3>2, <1>2, <1>6 DEF Construct, FrameT, IsSvcFrame
+        <4> QED BY <4>1, <1>2
+      <3> QED BY <3>1, <3>2
+    <2> QED BY <1>1, <1>3, <1>4, <1>5, <2>1, <2>2, RetopNeutral
+  <1>7. CASE IsSvcFrame(f, s)
+    <2>1. Cls(f, s) = "early" /\ built[s] = 0 /\ shared[s] = 0
+      BY <1>7, <1>1, <1>2, <1>5 DEF Cls, OnceFor
+    <2>2. built'[s] = 1
+      <3>1. f.kind # "par" /\ f.id = s /\ built' = [built EXCEPT ![f.id] = @ + 1]
+        BY <1>7 DEF Construct, IsSvcFrame
+      <3> QED BY <3>1, <2>1, <1>2
+    <2>3. \A h \in G : \A i \in 1..Len(stack[h]) : ~(h = g /\ i = n) => Cls(stack[h][i], s) = "none"
+      <3> SUFFICES ASSUME NEW h \in G, NEW i \in 1..Len(stack[h]), ~(h = g /\ i = n) PROVE Cls(stack[h][i], s) = "none"
+        OBVIOUS
+      <3>1. n \in 1..Len(stack[g]) /\ IsSvcFrame(stack[g][n], s) /\ stack[g][n].phase \in HeldPhases
+        BY <1>7, <1>2, <1>1 DEF HeldPhases
+      <3> QED BY <3>1, OnlyOneInside
+    <2>4. Cls(f2, s) = "store"
+      BY <1>7, <1>3 DEF Cls, IsSvcFrame
+    <2>5. \A h \in G : \A i \in 1..Len(stack'[h]) : Cls(stack'[h][i], s) = "none" \/ (Cls(stack'[h][i], s) = "store" /\ stack'[h][i].inst # 0)
+      <3> SUFFICES ASSUME NEW h \in G, NEW i \in 1..Len(stack'[h])
+                   PROVE  Cls(stack'[h][i], s) = "none" \/ (Cls(stack'[h][i], s) = "store" /\ stack'[h][i].inst # 0)
+        OBVIOUS
+      <3>1. CASE i \in 1..Len(stack[h]) /\ ~(h = g /\ i = n) /\ stack'[h][i] = stack[h][i]
+        BY <3>1, <2>3
+      <3>2. CASE h = g /\ i = n /\ stack'[h][i] = f2
+        BY <3>2, <2>4, <1>3
+      <3>3. CASE h = g /\ i = n + 1 /\ stack'[h][i].phase = "lock"
+        BY <3>3 DEF Cls
+      <3> QED BY <3>1, <3>2, <3>3, <1>4 DEF Shape
+    <2>6. \E h \in G : \E i \in 1..Len(stack'[h]) : Cls(stack'[h][i], s) = "store"
+      BY <1>4, <2>4
+    <2> QED BY <2>1, <2>2, <2>5, <2>6, <1>3 DEF OnceFor
+  <1> QED BY <1>6, <1>7
+
+LEMMA StoreOnce == ASSUME Inv, OnceInv, NEW g \in G, Store(g) PROVE OnceInv'
+  <1>1. TypeOK /\ Busy(g) /\ Top(g).phase = "store"
+    BY DEF Inv, Store
+  <1> DEFINE f == Top(g)
+             n == Len(stack[g])
+             f2 == [f EXCEPT !.phase = "unlock"]
+  <1>2. f \in FrameT /\ n \in Nat \ {0} /\ f = stack[g][n] /\ shared \in [Svc -> Nat]
+    BY <1>1, BusyLen DEF TypeOK
+  <1>3. f2 \in FrameT /\ stack' = SetTop(g, f2) /\ built' = built /\ f2.phase = "unlock"
+    BY <1>2 DEF Store, FrameT, Phases
+  <1>4. Shape(g, f2) /\ n \in 1..Len(stack'[g]) /\ stack'[g][n] = f2
+    BY <1>1, <1>3, SetTopShape
+  <1> SUFFICES ASSUME NEW s \in Svc, ScopeOf[s] = "shared" PROVE OnceFor(s)'
+    BY DEF OnceInv
+  <1>5. OnceFor(s) /\ Cls(f2, s) = "none"
+    BY <1>3 DEF OnceInv, Cls
+  <1>6. CASE ~IsSvcFrame(f, s)
+    <2>1. Cls(f, s) = "none"
+      BY <1>6 DEF Cls
+    <2>2. shared'[s] = shared[s]
+      <3>1. CASE f.kind = "par"
+        BY <3>1 DEF Store
+      <3>2. CASE f.kind # "par" /\ ScopeOf[f.id] = "shared"
+        <4>1. f.id \in Svc /\ f.id # s /\ shared' = [shared EXCEPT ![f.id] = f.inst]
+          BY <3>2, <1>2, <1>6 DEF Store, FrameT, IsSvcFrame
+        <4> QED BY <4>1, <1>2
+      <3>3. CASE f.kind # "par" /\ ScopeOf[f.id] # "shared"
+        BY <3>3 DEF Store
+      <3> QED BY <3>1, <3>2, <3>3
+    <2> QED BY <1>1, <1>3, <1>4, <1>5, <2>1, <2>2, RetopNeutral
+  <1>7. CASE IsSvcFrame(f, s)
+    <2>1. Cls(f, s) = "store" /\ built[s] = 1 /\ f.inst # 0
+      BY <1>7, <1>1, <1>2, <1>5 DEF Cls, OnceFor
+    <2>2. shared'[s] = f.inst
+      <3>1. f.kind # "par" /\ f.id = s /\ ScopeOf[f.id] = "shared"
+        BY <1>7 DEF IsSvcFrame
+      <3>2. shared' = [shared EXCEPT ![f.id] = f.inst]
+        BY <3>1 DEF Store
+      <3> QED BY <3>1, <3>2, <1>2
+    <2>3. \A h \in G : \A i \in 1..Len(stack[h]) : ~(h = g /\ i = n) => Cls(stack[h][i], s) = "none"
+      <3> SUFFICES ASSUME NEW h \in G, NEW i \in 1..Len(stack[h]), ~(h = g /\ i = n) PROVE Cls(stack[h][i], s) = "none"
+        OBVIOUS
+      <3>1. n \in 1..Len(stack[g]) /\ IsSvcFrame(stack[g][n], s) /\ stack[g][n].phase \in HeldPhases
+        BY <1>7, <1>2, <1>1 DEF HeldPhases
+      <3> QED BY <3>1, OnlyOneInside
+    <2>4. \A h \in G : \A i \in 1..Len(stack'[h]) : Cls(stack'[h][i], s) = "none"
+      <3> SUFFICES ASSUME NEW h \in G, NEW i \in 1..Len(stack'[h]) PROVE Cls(stack'[h][i], s) = "none"
+        OBVIOUS
+      <3>1. CASE i \in 1..Len(stack[h]) /\ ~(h = g /\ i = n) /\ stack'[h][i] = stack[h][i]
+        BY <3>1, <2>3
+      <3>2. CASE h = g /\ i = n /\ stack'[h][i] = f2
+        BY <3>2, <1>5
+      <3>3. CASE h = g /\ i = n + 1 /\ stack'[h][i].phase = "lock"
+        BY <3>3 DEF Cls
+      <3> QED BY <3>1, <3>2, <3>3, <1>4 DEF Shape
+    <2> QED BY <2>1, <2>2, <2>4, <1>3 DEF OnceFor
+  <1> QED BY <1>6, <1>7
+
+LEMMA UnlockOnce == ASSUME Inv, OnceInv, NEW g \in G, Unlock(g) PROVE OnceInv'
+  <1>1. TypeOK /\ Busy(g) /\ Top(g).phase = "unlock"
+    BY DEF Inv, Unlock
+  <1> DEFINE f == Top(g)
+             n == Len(stack[g])
+             f2 == [f EXCEPT !.phase = "return"]
+  <1>2. f \in FrameT /\ n \in Nat \ {0}
+    BY <1>1, BusyLen
+  <1>3. f2 \in FrameT /\ built' = built /\ shared' = shared /\ f2.phase = "return"
+    BY <1>2 DEF Unlock, FrameT, Phases
+  <1> SUFFICES ASSUME NEW s \in Svc, ScopeOf[s] = "shared" PROVE OnceFor(s)'
+    BY DEF OnceInv
+  <1>4. OnceFor(s) /\ Cls(f2, s) = "none" /\ Cls(f, s) = "none"
+    BY <1>1, <1>3 DEF OnceInv, Cls
+  <1>5. CASE n = 1
+    <2>1. stack' = SetTop(g, f2)
+      BY <1>5 DEF Unlock
+    <2>2. Shape(g, f2) /\ n \in 1..Len(stack'[g]) /\ stack'[g][n] = f2
+      BY <1>1, <1>3, <2>1, SetTopShape
+    <2> QED BY <1>1, <1>3, <1>4, <2>2, RetopNeutral
+  <1>6. CASE n # 1
+    <2>1. stack' = Pop(g)
+      BY <1>6 DEF Unlock
+    <2>2. Shape(g, f2) /\ n \notin 1..Len(stack'[g])
+      BY <1>1, <2>1, PopShape
+    <2> QED BY <1>1, <1>3, <1>4, <2>2, DropNeutral
+  <1> QED BY <1>5, <1>6
+
+LEMMA ReturnOnce == ASSUME Inv, OnceInv, NEW g \in G, Return(g) PROVE OnceInv'
+  <1>1. TypeOK /\ Busy(g) /\ Top(g).phase = "return"
+    BY DEF Inv, Return
+  <1>2. stack' = Pop(g) /\ built' = built /\ shared' = shared
+    BY DEF Return
+  <1>3. Shape(g, Top(g)) /\ Len(stack[g]) \notin 1..Len(stack'[g])
+    BY <1>1, <1>2, PopShape
+  <1> SUFFICES ASSUME NEW s \in Svc, ScopeOf[s] = "shared" PROVE OnceFor(s)'
+    BY DEF OnceInv
+  <1>4. OnceFor(s) /\ Cls(Top(g), s) = "none"
+    BY <1>1 DEF OnceInv, Cls
+  <1> QED BY <1>1, <1>2, <1>3, <1>4, DropNeutral
+
+THEOREM OnceInductive == Inv /\ OnceInv /\ [CNext]_cvars => OnceInv'
+  <1> SUFFICES ASSUME Inv, OnceInv, [CNext]_cvars PROVE OnceInv'
+    OBVIOUS
+  <1>1. CASE UNCHANGED cvars
+    BY <1>1 DEF OnceInv, OnceFor, cvars, Cls, IsSvcFrame
+  <1>2. ASSUME NEW g \in G, Begin(g) \/ Lock(g) \/ Check(g) \/ Dep(g) \/ Construct(g) \/ Store(g) \/ Unlock(g) \/ Return(g) PROVE OnceInv'
+    BY <1>2, BeginOnce, LockOnce, CheckOnce, DepOnce, ConstructOnce, StoreOnce, UnlockOnce, ReturnOnce
+  <1> QED BY <1>1, <1>2 DEF CNext
+
 THEOREM MutexFromInv == Inv => MutualExclusion
   <1> SUFFICES ASSUME Inv,
                       NEW g1 \in G, NEW g2 \in G, g1 # g2, Busy(g1), Busy(g2),
@@ -395,7 +896,7 @@ LEMMA DepInv == ASSUME Inv, NEW g \in G, Dep(g) PROVE Inv'
              ds == DepsOf[f.id]
   <1>2. f \in FrameT /\ n \in Nat \ {0} /\ f = stack[g][n]
     BY <1>1, BusyLen
-  <1>3. UNCHANGED <<pcs, locks, shared, bags, pcache, nextInst>>
+  <1>3. UNCHANGED <<pcs, locks, shared, bags, pcache, nextInst, built>>
     BY DEF Dep
   <1>4. CASE f.dep > Len(ds)
     <2> DEFINE f2 == [f EXCEPT !.phase = "build"]
@@ -460,7 +961,7 @@ LEMMA UnlockInv == ASSUME Inv, NEW g \in G, Unlock(g) PROVE Inv'
              f2 == [f EXCEPT !.phase = "return"]
   <1>2. f \in FrameT /\ n \in Nat \ {0} /\ f = stack[g][n]
     BY <1>1, BusyLen
-  <1>3. UNCHANGED <<pcs, shared, bags, pcache, nextInst>>
+  <1>3. UNCHANGED <<pcs, shared, bags, pcache, nextInst, built>>
     BY DEF Unlock
   <1>4. f2 \in FrameT /\ ~Held(f2) /\ (Held(f) <=> NeedsLock(f))
     BY <1>1, <1>2 DEF FrameT, Phases, Held, HeldPhases
@@ -526,7 +1027,7 @@ LEMMA UnlockInv == ASSUME Inv, NEW g \in G, Unlock(g) PROVE Inv'
 LEMMA ReturnInv == ASSUME Inv, NEW g \in G, Return(g) PROVE Inv'
   <1>1. TypeOK /\ LockInv /\ NoDup /\ Busy(g) /\ Len(stack[g]) = 1
     BY DEF Inv, Return
-  <1>2. UNCHANGED <<locks, shared, bags, pcache, nextInst>> /\ stack' = Pop(g) /\ pcs' = [pcs EXCEPT ![g] = @ + 1]
+  <1>2. UNCHANGED <<locks, shared, bags, pcache, nextInst, built>> /\ stack' = Pop(g) /\ pcs' = [pcs EXCEPT ![g] = @ + 1]
     BY DEF Return
   <1>3. /\ stack' \in [G -> Seq(FrameT)]
         /\ \A h \in G : h # g => stack'[h] = stack[h]
@@ -560,4 +1061,12 @@ THEOREM MutexAlways == (CInit /\ [][CNext]_cvars) => []MutualExclusion
     BY MutexFromInv
   <1> QED BY <1>1, <1>2, <1>3, PTL
 
+THEOREM ConstructedOnceAlways == (CInit /\ [][CNext]_cvars) => []ConstructedOnce
+  <1>1. CInit => Inv /\ OnceInv
+    BY InitInv, InitOnce
+  <1>2. (Inv /\ OnceInv) /\ [CNext]_cvars => (Inv /\ OnceInv)'
+    BY InvInductive, OnceInductive
+  <1>3. (Inv /\ OnceInv) => ConstructedOnce
+    BY OnceImplies
+  <1> QED BY <1>1, <1>2, <1>3, PTL
 =============================================================================
